@@ -590,6 +590,9 @@ func (w *World) checkStoredFunds(n *Node, s *Snap) {
 			// then stores the inflow alone; the address is not judged on this node from now on
 			w.Res.Count("c07_checkpoint_funds_indeterminate", 1)
 			n.Tainted[a] = true
+			if d := new(big.Int).Neg(net); n.MaxDebt[a] == nil || n.MaxDebt[a].Cmp(d) < 0 {
+				n.MaxDebt[a] = d
+			}
 			continue
 		}
 		if n.Tainted[a] {
